@@ -527,6 +527,8 @@ def _judge(label: str, n: ast.AST, arg: ast.AST, f: Func, env: KindEnv, t, class
     if k == STR and label in ("int", "float"):
         if "ValueError" in covered:
             return None
+        if _grammar_checked(n, arg, f):
+            return None
         return "the operand is script text that need not be numeric"
     if k == FINITE and label in ("int", "round", "math.floor", "math.ceil", "math.trunc", "math.sin", "math.cos", "math.tan"):
         return None
@@ -593,6 +595,45 @@ def _compared(n: ast.AST, arg: ast.AST, f: Func) -> bool:
         if isinstance(par, ast.IfExp) and _names(par.test) & names:
             return True
         par = getattr(par, "_parent", None)
+    return False
+
+
+def _grammar_checked(n: ast.AST, arg: ast.AST, f: Func) -> bool:
+    """The text handed to int()/float() was matched against a compiled regular expression first: the site is
+    inside `if PATTERN.match(text):` / after `if not PATTERN.match(text): return ...`, where PATTERN is a
+    host-library object (re.compile at module level) and text is the operand or the name it is sliced from."""
+    names = {x.id for x in ast.walk(arg) if isinstance(x, ast.Name)} - {"int", "float", "len"}
+    if not names or not _CTX:
+        return False
+    cg = _CTX[0].cg
+
+    def is_match(t, want: bool, pol: bool) -> bool:
+        neg = False
+        while isinstance(t, ast.UnaryOp) and isinstance(t.op, ast.Not):
+            t, neg = t.operand, not neg
+        if not (isinstance(t, ast.Call) and isinstance(t.func, ast.Attribute) and t.func.attr in ("match", "fullmatch") and t.args and isinstance(t.args[0], ast.Name) and t.args[0].id in names):
+            return False
+        if not cg._is_external_object(t.func.value, f):
+            return False
+        return (pol != neg) == want
+
+    for tst, pol in guards_of(n, f.node):
+        if is_match(tst, True, pol):
+            return True
+    child, p = n, getattr(n, "_parent", None)
+    while p is not None:
+        for field in ("body", "orelse"):
+            blk = getattr(p, field, None)
+            if isinstance(blk, list) and any(child is s_ for s_ in blk):
+                idx = [i for i, s_ in enumerate(blk) if s_ is child][0]
+                for s_ in blk[:idx]:
+                    if isinstance(s_, ast.If) and s_.body and isinstance(s_.body[-1], (ast.Return, ast.Raise)) and not s_.orelse:
+                        # `if not PATTERN.match(s): return` -> afterwards the match holds
+                        if is_match(s_.test, True, False):
+                            return True
+        if p is f.node:
+            break
+        child, p = p, getattr(p, "_parent", None)
     return False
 
 
